@@ -16,6 +16,8 @@ pub struct StreamEncryptor<R> {
     source: R,
     /// Indicates if we are done reading from the `source`.
     is_source_done: bool,
+    /// A previous call failed, the buffer does not hold encrypted data.
+    is_failed: bool,
     /// Total number of bytes read from the source.
     bytes_read: u64,
     chunk_index: u64,
@@ -58,6 +60,7 @@ impl<R: io::Read> StreamEncryptor<R> {
         Ok(StreamEncryptor {
             source,
             is_source_done: false,
+            is_failed: false,
             bytes_read: 0,
             chunk_index: 0,
             info,
@@ -147,7 +150,15 @@ impl<R: io::Read> io::Read for StreamEncryptor<R> {
         if !self.buffer.has_remaining() {
             if !self.is_source_done {
                 // Still more to read and encrypt from the source.
-                self.fill_buffer()?;
+                if self.is_failed {
+                    return Err(io::Error::other("aead encryption failed before"));
+                }
+                if let Err(err) = self.fill_buffer() {
+                    // the buffer holds unencrypted leftovers now
+                    self.is_failed = true;
+                    self.buffer.clear();
+                    return Err(err);
+                }
             } else {
                 // The final chunk was written, we have nothing left to give.
                 return Ok(0);
